@@ -378,9 +378,7 @@ func c09R3(p *core.Program, r *core.Report, sc *scanClosure) {
 	info := sc.f.Info()
 	fragName := "(" + core.G("pkg/gengo/snippet.Snippet") + ").Frag"
 	ast.Inspect(sc.f.Body, func(n ast.Node) bool {
-		if lit, ok := n.(*ast.FuncLit); ok && lit != sc.f.Lit {
-			return false
-		}
+		// nested closures (helpers that forward fragments to the captured yield) are included
 		c, ok := n.(*ast.CallExpr)
 		if !ok || core.VarOf(info, c.Fun) != sc.yield || len(c.Args) != 1 {
 			return true
@@ -502,30 +500,59 @@ func c09R5(p *core.Program, r *core.Report, sc *scanClosure) {
 		}
 		return c
 	}
-	has := func(n ast.Node, name string) bool { return len(core.CallsTo(info, n, true, core.G("pkg/gengo/snippet."+name))) > 0 }
-	fragName := "(" + core.G("pkg/gengo/snippet.Snippet") + ").Frag"
+	// referenced: the constructor is called or passed as a function value inside n
+	refers := func(n ast.Node, name string) bool {
+		found := false
+		ast.Inspect(n, func(m ast.Node) bool {
+			if id, ok := m.(*ast.Ident); ok {
+				if fn, ok := info.ObjectOf(id).(*types.Func); ok && fn.FullName() == core.G("pkg/gengo/snippet."+name) {
+					found = true
+				}
+			}
+			return !found
+		})
+		return found
+	}
+	// assertsSnippet: n (or an in-package helper / local closure called from n) tests its argument against Snippet
+	var assertsSnippet func(n ast.Node, finfo *types.Info, depth int) bool
+	assertsSnippet = func(n ast.Node, finfo *types.Info, depth int) bool {
+		found := false
+		ast.Inspect(n, func(m ast.Node) bool {
+			switch x := m.(type) {
+			case *ast.TypeSwitchStmt:
+				for _, c := range x.Body.List {
+					for _, e := range c.(*ast.CaseClause).List {
+						if core.NamedTypeName(finfo.TypeOf(e)) == core.G("pkg/gengo/snippet.Snippet") {
+							found = true
+						}
+					}
+				}
+			case *ast.TypeAssertExpr:
+				if x.Type != nil && core.NamedTypeName(finfo.TypeOf(x.Type)) == core.G("pkg/gengo/snippet.Snippet") {
+					found = true
+				}
+			case *ast.CallExpr:
+				if depth < 2 {
+					if callee := p.FuncOfObj(core.CalleeFunc(finfo, x)); callee != nil && callee.Pkg == sc.f.Pkg {
+						if assertsSnippet(callee.Body, callee.Info(), depth+1) {
+							found = true
+						}
+					}
+				}
+			}
+			return !found
+		})
+		return found
+	}
 	for _, verb := range []struct {
 		c        rune
 		want, no string
 	}{{'T', "ID", "Value"}, {'v', "Value", "ID"}} {
 		cc := clauses[int64(verb.c)]
-		ok := has(cc, verb.want) && !has(cc, verb.no) && countCalls(cc, getArg) == 1 && len(core.CallsTo(info, cc, true, fragName)) >= 2
-		// nested snippet arm: a type switch / assertion to Snippet
-		snippetArm := false
-		ast.Inspect(cc, func(n ast.Node) bool {
-			if ts, ok := n.(*ast.TypeSwitchStmt); ok {
-				for _, c := range ts.Body.List {
-					for _, e := range c.(*ast.CaseClause).List {
-						if core.NamedTypeName(info.TypeOf(e)) == core.G("pkg/gengo/snippet.Snippet") {
-							snippetArm = true
-						}
-					}
-				}
-			}
-			return true
-		})
+		ok := refers(cc, verb.want) && !refers(cc, verb.no) && countCalls(cc, getArg) == 1
+		snippetArm := assertsSnippet(cc, info, 0)
 		r.Check(ok && snippetArm, rule, sc.f, fmt.Sprintf("%%%c renders through %s (nested snippets as themselves), one argument consumed", verb.c, verb.want), cc.Pos(),
-			"clause fetches one argument, has a Snippet arm and a "+verb.want+"(x) arm", fmt.Sprintf("the %%%c arm does not (only) render through %s with a nested-snippet arm and exactly one argument fetch", verb.c, verb.want))
+			"clause fetches one argument, tests it against Snippet (directly or in a helper) and otherwise wraps it with "+verb.want, fmt.Sprintf("the %%%c arm does not (only) render through %s with a nested-snippet arm and exactly one argument fetch", verb.c, verb.want))
 	}
 	pc := clauses['%']
 	emits := false
